@@ -6,11 +6,13 @@ package gohbase
 // against the schedule (Trace_Backoff).
 
 import (
+	"bytes"
 	"context"
 	"errors"
 	"fmt"
 	"os"
 	"sync"
+	"sync/atomic"
 	"testing"
 	"testing/synctest"
 	"time"
@@ -32,6 +34,7 @@ type c17Scenario struct {
 	warm         bool // the region is used successfully first; the failure begins afterwards
 	scan         bool // the entry point is a scanner's Next
 	cacheRegions bool // the entry point is CacheRegions(table) (the meta lookup for a whole table; it has no context: only Close ends it)
+	burst        int  // > 0: that many concurrent requests for ONE region; they report its outage at the same instant (held at the entry of MarkUnavailable)
 	loops        int  // > 1: that many regions on the failing server, one concurrent request each (attempts of the loops interleave)
 	setup        func(cl *verifsim.Cluster, mark func())
 	opts         []Option
@@ -255,6 +258,21 @@ func TestVerifC17(t *testing.T) {
 		x.name = fmt.Sprintf("%s/%d", twoServers.name, rep2)
 		all = append(all, x)
 	}
+	// several callers learn of ONE outage at the same instant (a burst of "not serving" answers for requests that were in
+	// flight together): one of them starts the re-establishment, whose probes are paced by ONE schedule - not one schedule per
+	// caller who noticed
+	for _, n := range []int{4, 16} {
+		for k := 0; k < 25; k++ {
+			x := scenarios[5] // region-goes-offline-after-being-online
+			if x.name != "region-goes-offline-after-being-online" {
+				t.Fatal("scenario table changed")
+			}
+			x.name = fmt.Sprintf("several-callers-report-the-same-outage-at-once/n=%d/%d", n, k)
+			x.burst, x.imm = n, n
+			x.dur = 40 * time.Second
+			all = append(all, x)
+		}
+	}
 	for _, s := range all {
 		if only := os.Getenv("VERIF_ONLY"); only != "" && only != s.name {
 			continue
@@ -339,12 +357,49 @@ func TestVerifC17(t *testing.T) {
 				} else if s.batch {
 					p, _ := hrpc.NewPut(ctx, []byte("t"), []byte("k"), map[string]map[string][]byte{"f": {"q": []byte("v")}})
 					c.SendBatch(ctx, []hrpc.Call{p})
+				} else if s.burst > 0 {
+					var arrived atomic.Int32
+					release := make(chan struct{})
+					var once sync.Once
+					simSetRegionHook(func(point string, c any, arg any) {
+						if point != "info.markUnavailable" {
+							return
+						}
+						if r, ok := c.(hrpc.RegionInfo); !ok || !bytes.HasPrefix(r.Name(), []byte("t,,")) {
+							return
+						}
+						if int(arrived.Add(1)) >= s.burst {
+							once.Do(func() { close(release) })
+						}
+						select {
+						case <-release: // (all of them are here: they go on together)
+						case <-time.After(time.Millisecond): // (the establisher's own reports come later and alone)
+						}
+					})
+					var wg sync.WaitGroup
+					for i := 0; i < s.burst; i++ {
+						wg.Add(1)
+						go func() {
+							defer wg.Done()
+							g, _ := hrpc.NewGet(ctx, []byte("t"), []byte("k"), hrpc.SkipBatch())
+							c.Get(g)
+						}()
+					}
+					wg.Wait()
 				} else {
 					g, _ := hrpc.NewGet(ctx, []byte("t"), []byte("k"), hrpc.SkipBatch())
 					c.Get(g)
 				}
 			}()
-			time.Sleep(dur)
+			if s.dur > 0 {
+				time.Sleep(s.dur)
+			} else {
+				time.Sleep(dur)
+			}
+			if s.burst > 0 {
+				simSetRegionHook(nil)
+			}
+			_ = dur
 			synctest.Wait()
 			if hot {
 				rep.bad("hot-loop:"+s.name, "%s: more than 3000 attempts reached the cluster within %v of virtual time (first gaps %v us): retries do not back off",
@@ -389,7 +444,7 @@ func TestVerifC17(t *testing.T) {
 			}
 			rep.Scenarios++
 			rep.Distinct++
-			if len(times) < 15 {
+			if len(times) < 15 && s.burst == 0 {
 				rep.bad("too-few-attempts", "%s: only %d attempts reached the cluster in %v: the scenario does not exercise the schedule", s.name, len(times), dur)
 			}
 			rep.Samples = append(rep.Samples, map[string]any{"scenario": s.name, "attempts": len(times), "first_gaps_us": gaps(times, 6)})
